@@ -78,6 +78,45 @@ def compare(res, ctx, methods, vals, error_status=0, only=None):
     return bad
 
 
+def near_valid_probe(ctx_, work, vals):
+    """structs that the unchanged compiler rejects because their size is not a multiple of their
+    alignment (every member offset is aligned).  The property quantifies over what the compiler
+    ACCEPTS: when the tree under check accepts them, methods over them must round-trip like any
+    other.  -> (status, failures)"""
+    rng = vlib.mkrng(0, "near-valid")
+    c = gen.Ctx(rng)
+    decls = []
+    for name, fields, size, al in (("NV1", [("uint64", 1, "a"), ("uint32", 1, "b")], 12, 8),
+                                   ("NV2", [("uint32", 1, "a"), ("uint8", 1, "b")], 5, 4),
+                                   ("NV3", [("NV2", 3, "t")], 15, 4)):
+        c.structs[name] = {"size": size, "align": al, "objs": 0, "fields": fields, "file": c.cur}
+        decls.append(("struct", name, fields))
+    methods = [("m0", [("in", "NV1", None, "p0"), ("in", "uint32", None, "p1"), ("out", "uint32", None, "p2")]),
+               ("m1", [("in", "NV1", None, "p0")]),
+               ("m2", [("out", "NV1", None, "p0"), ("out", "uint32", None, "p1")]),
+               ("m3", [("in", "NV2", None, "p0"), ("out", "NV2", None, "p1")]),
+               ("m4", [("in", "NV3", None, "p0"), ("out", "uint8", None, "p1")]),
+               ("m5", [("in", "NV1", "[]", "p0"), ("out", "NV2", "[]", "p1")])]
+    decls.append(("iface", "IL2", None, [("method", n, ps, False, None) for n, ps in methods]))
+    fs = {"files": [{"path": "l2.idl", "includes": [], "decls": decls}], "main": "l2.idl", "idirs": []}
+    root = os.path.join(work, "nearvalid")
+    gen.write_fileset(fs, root)
+    r1 = scrape.idlc_run(ctx_["idlc"], os.path.join(root, "l2.idl"), os.path.join(root, "l2.h"), "c", False)
+    r2 = scrape.idlc_run(ctx_["idlc"], os.path.join(root, "l2.idl"), os.path.join(root, "l2_invoke.h"), "c", True)
+    if r1[0] != 0 or r2[0] != 0:
+        return "rejected (as the struct rules demand)", []
+    fails = []
+    text = gen.render_file(fs["files"][0])
+    for tag, es, vs in (("nv", 0, vals), ("nverr", 11, vals[:1])):
+        r = build_and_run(root, tag, c, methods, vs, "gcc", error_status=es)
+        for bad in compare(r, c, methods, vs, es)[:6]:
+            fails.append({"property": ctx_["prop"], "idl": text, "compiler": "gcc", "method": bad[0], "valuation": bad[1],
+                          "expected": bad[2][:600], "observed": bad[3][:600],
+                          "what": "the compiler accepts a struct whose size is not a multiple of its alignment and the round trip through "
+                                  "C stub -> copying transport -> C skeleton differs for %s" % bad[0]})
+    return "accepted", fails
+
+
 def run(ctx_):
     prop, tier, seed, work = ctx_["prop"], ctx_["tier"], ctx_["seed"], ctx_["work"]
     nb = 6 if tier == "quick" else 150
@@ -157,7 +196,10 @@ def run(ctx_):
             if nbad:
                 res["failures"].append({"property": prop, "known_class": cls, "idl": text,
                                         "what": "methods of class %s do not round-trip (%d log lines differ or the sanitizer aborts)" % (cls, nbad)})
+    nv_status, nv_fails = near_valid_probe(ctx_, work, vals)
+    res["failures"] += nv_fails
     res["coverage"] = {
+        "near_valid_structs": nv_status,
         "evaluations": ncalls, "distinct_nontrivial": distinct,
         "rule": "%d generated interfaces of 12 methods (0-8 parameters over primitives, buffers, primitive and struct arrays, small and big object-free "
                 "structs, objects, object arrays); every method outside the known classes is called with 3 valuations (boundary lengths 0/1/3/5, "
